@@ -647,8 +647,10 @@ func Exec(p *Program, io *StageIO) (*StageResult, error) {
 			var chunks []*Val
 			if xs.K == VArr {
 				for i, x := range xs.A {
+					// the chunk definitions depend on every argument, so that
+					// two forks of a mapped SUMS never return the same ones
 					chunks = append(chunks, Obj(map[string]*Val{
-						"x": x.Clone(), "idx": Int(int64(i))}))
+						"x": Int(x.Int() + 1000*k), "idx": Int(int64(i))}))
 				}
 			}
 			return &StageResult{Chunks: chunks}, nil
